@@ -89,7 +89,7 @@ func HarnessC08Sign() {
 	e := svPick("embeds", svParam("embeds", 1)+1)
 	a := svPick("atts", svParam("atts", 1)+1)
 	menc := hxEnc(svPick("menc", 3))
-	variant := svPick("variant", svParam("variants", 10))
+	variant := svPick("variant", svParam("variants", 11))
 	n := svParam("n", 2)
 	m := NewMsg(WithEncoding(menc))
 	_ = m.From("a@b.c")
@@ -121,6 +121,8 @@ func HarnessC08Sign() {
 		m.CcIgnoreInvalid("not an address")
 	case 7:
 		vname = "after-WriteToSkipMiddleware"
+	case 10:
+		vname = "long-file-names"
 	case 9:
 		vname = "preformatted-tab-folded"
 		m.SetGenHeaderPreformatted(Header("X-Pre"), "line one\r\n\tline two\r\n\tline three")
@@ -165,10 +167,18 @@ func HarnessC08Sign() {
 		}
 	}
 	for i := 0; i < e; i++ {
-		_ = m.EmbedReader("emb.png", &hxRd{data: []byte(hxFileData[0])})
+		ename := "emb.png"
+		if variant == 10 {
+			ename = "an-embedded-image-with-a-file-name-long-enough-to-need-folding-0123456789.png"
+		}
+		_ = m.EmbedReader(ename, &hxRd{data: []byte(hxFileData[0])})
 	}
 	for i := 0; i < a; i++ {
-		_ = m.AttachReader("att.txt", &hxRd{data: []byte(hxFileData[1])})
+		aname := "att.txt"
+		if variant == 10 {
+			aname = "an-attachment-with-a-file-name-long-enough-to-need-folding-0123456789.txt"
+		}
+		_ = m.AttachReader(aname, &hxRd{data: []byte(hxFileData[1])})
 	}
 	if p+e+a == 0 {
 		return
